@@ -2699,19 +2699,23 @@ func (s *Store) fsmSnapshot() (fSnap raft.FSMSnapshot, retErr error) {
 		// A failed FULL snapshot is always retryable, since we're looking to capture
 		// the entire database. So return the error and Raft will retry.
 		//
+		// From here on a full snapshot stays required until one has actually been installed
+		// (only the snapshot sink clears the requirement). Without this, an attempt that
+		// is not persisted would be the last thing to remember that the database changed
+		// underneath the snapshot chain: the modification time recorded when this function
+		// returns makes dbModified() false again, and if the requirement itself was cleared
+		// meanwhile -- by the sink installing a full snapshot captured before a load was
+		// applied -- the next snapshot would be an incremental one on top of the wrong database.
+		if err := s.snapshotStore.SetDueNext(snapshot.Full); err != nil {
+			return nil, err
+		}
 		// Any WAL files still in the staging directory (left there by an earlier snapshot
 		// whose persist was skipped or failed) describe changes relative to the previous
 		// snapshot chain, possibly to a database that has since been replaced. The full
 		// snapshot starts a new chain, so they must not be packaged into the incremental
-		// snapshot that follows it. Until a full snapshot is actually installed nothing
-		// else may be taken, since the delta those files held is gone.
-		if staged, err := snapshot.NewStagingDir(s.walStagingDir).WALFiles(); err == nil && len(staged) > 0 {
-			if err := s.snapshotStore.SetDueNext(snapshot.Full); err != nil {
-				return nil, err
-			}
-			if err := os.RemoveAll(s.walStagingDir); err != nil {
-				return nil, fmt.Errorf("failed to remove stale WAL staging directory: %w", err)
-			}
+		// snapshot that follows it.
+		if err := os.RemoveAll(s.walStagingDir); err != nil {
+			return nil, fmt.Errorf("failed to remove stale WAL staging directory: %w", err)
 		}
 		if meta, _, err := s.checkpointer.Checkpoint(nil, truncateTimeout); err != nil {
 			return nil, fmt.Errorf("checkpoint failed during full snapshot: %w", err)
